@@ -823,7 +823,7 @@ pub fn get_value(
 
         // ===== Datetime functions =====
         Some(Function::CurrentDate) => {
-            let now = Local::now().date_naive();
+            let now = crate::util::local_today();
             Variant::from_string(&format_date(&now))
         }
         Some(Function::Year) => match parse_date(&function_arg) {
